@@ -317,9 +317,8 @@ func (c *Conn) Write(p []byte) (int, error) {
 			k--
 		}
 		c.c2s = append(c.c2s, p[:k]...)
-		if k > 0 {
-			c.broken = true
-		}
+		// a write that runs into its deadline leaves a real socket writable: later
+		// writes would succeed, so the connection is deliberately not marked broken
 		c.writes = append(c.writes, WriteRec{Off: off, Len: len(p), N: k, Err: "stall"})
 		dl := c.wrDeadline
 		c.stalling++
@@ -529,4 +528,17 @@ func (c *Conn) Busy() bool {
 	c.mu.Lock()
 	defer c.mu.Unlock()
 	return c.stalling > 0 || c.wfault != nil || c.broken
+}
+
+// PartialWrite reports whether some Write call on the connection was cut short after
+// accepting at least one byte: from then on the byte stream is legitimately torn.
+func (c *Conn) PartialWrite() bool {
+	c.mu.Lock()
+	defer c.mu.Unlock()
+	for _, r := range c.writes {
+		if r.N > 0 && r.N < r.Len {
+			return true
+		}
+	}
+	return false
 }
